@@ -23,22 +23,35 @@ pub struct Session<'t, F: Kind> {
 
 pub type Slot = usize;
 
-pub fn tt_of<F: BooleanFunction>(f: &F, n: u32) -> Vec<u32> {
-    let mut tt = Vec::new();
-    for a in 0..(1u32 << n) {
-        if f.eval((0..n).map(|v| (v, (a >> v) & 1 == 1))) {
-            tt.push(a);
+/// truth table by `eval` on every assignment; a panic of `eval` is reported
+/// as the table `[-1]` (no function has it)
+pub fn tt_of<F: BooleanFunction>(f: &F, n: u32) -> Vec<i64> {
+    let r = catch(|| {
+        let mut tt = Vec::new();
+        for a in 0..(1u32 << n) {
+            if f.eval((0..n).map(|v| (v, (a >> v) & 1 == 1))) {
+                tt.push(a as i64);
+            }
         }
-    }
-    tt
+        tt
+    });
+    r.unwrap_or_else(|_| vec![-1])
 }
 
 impl<'t, F: Kind + BooleanFunction> Session<'t, F> {
     pub fn new(out: &'t mut TraceOut, cap: usize, cache: usize, threads: u32) -> Self {
+        Self::new_tagged(out, cap, cache, threads, "")
+    }
+    /// `tag` becomes part of the signature of every finding in this history
+    pub fn new_tagged(out: &'t mut TraceOut, cap: usize, cache: usize, threads: u32, tag: &str) -> Self {
         out.begin_history();
         let mref = F::new_manager(cap, cache, threads);
-        out.emit(json!({"ev":"reset","kind":F::KIND,"cap":cap,"cache":cache,"thr":threads,
-            "backend": if cfg!(feature="ptr") {"ptr"} else {"idx"}}));
+        let mut ev = json!({"ev":"reset","kind":F::KIND,"cap":cap,"cache":cache,"thr":threads,
+            "backend": if cfg!(feature="ptr") {"ptr"} else {"idx"}});
+        if !tag.is_empty() {
+            ev["tag"] = json!(tag);
+        }
+        out.emit(ev);
         Session {
             mref,
             slots: Vec::new(),
@@ -54,6 +67,7 @@ impl<'t, F: Kind + BooleanFunction> Session<'t, F> {
     }
 
     pub fn add_vars(&mut self, k: u32) {
+        self.out.emit(json!({"ev":"begin","what":"add_vars","k":k}));
         let r = self
             .mref
             .with_manager_exclusive(|m| catch(|| m.add_vars(k)));
@@ -279,6 +293,7 @@ impl<'t, F: Kind + BooleanFunction> Session<'t, F> {
     }
 
     pub fn reorder(&mut self, req: &[u32]) {
+        self.out.emit(json!({"ev":"begin","what":"reorder","req":req}));
         let r = self
             .mref
             .with_manager_exclusive(|m| catch(|| F::set_var_order(m, req)));
